@@ -11,6 +11,7 @@ global size_of usize == 8;
 //@ include units/lifecycle/helpers.rs
 //@ include units/lifecycle/part.rs
 //@ include units/lifecycle/listing.rs
+//@ include units/lifecycle/clean.rs
 
 fn main() {}
 } // verus!
